@@ -14,6 +14,17 @@ add("C07", "Hypothesis-generated tensor sums; metamorphic (alpha-variants) + dif
     "merge-completeness bounds. Exploration, not proof: bounded term size (<=4 objects + fillers, rank<=3+3).",
     "Trusted: F_p tensor evaluator (self-tested against brute-force loops at every run), Hypothesis, sympy constructors.")
 
+add("C06", "Hypothesis-generated index tuples + exhaustive enumeration of a small tuple domain; oracle: brute-force orbit of the declared symmetry group; metamorphic value check for assumptions",
+    "Generated-input search against an orbit-enumeration oracle: sampled tuples (ranks <= 3+3, 20-label pool) and an exhaustively enumerated sub-domain "
+    "(all tuples over six 4-label pools, ranks <= (2,2), every kind and bra-ket value, all ordered pairs: ~2.5e6 comparisons per run); assumptions checked for "
+    "idempotence, locality and value preservation on F_p models that satisfy them.",
+    "Trusted: the orbit enumeration (S_nu x S_nl x Z2 with signs) as specification of 'related by declared symmetry'; F_p evaluator.")
+add("C08", "Hypothesis-generated index maps, permutation sequences, renamings and registry histories; oracle: simultaneous reconstruction, documented name sequence, F_p value, identity invariants",
+    "Generated-input search: ordered substitution lists vs. simultaneous reconstruction through the public constructors; permute vs. one-by-one transpositions; "
+    "substitute_contracted / substitute_with_generic vs. the documented name enumeration, freshness against the history's own record of handed-out names, and value in F_p; "
+    "2-12 step histories on a freshly reset registry with identity invariants after every step.",
+    "Trusted: rebuild() reconstruction, F_p evaluator; registry reset drops the Singleton instance (harness plumbing, not a source hook).")
+
 NOT_YET = "check not built yet in this round (planned, see DESIGN.md)"
 
 def main():
